@@ -13,3 +13,7 @@ $B/mkoverlay -repo $REPO -hooks $V/hooks -out $B/overlay > $B/overlay.log
 sed "s#@REPO@#$REPO#" $V/sim/go.mod.tmpl > $B/sim.go.mod
 cp $REPO/go.sum $B/sim.go.sum
 ( cd $V/sim && $GO test -c -tags verif -overlay $B/overlay/overlay.json -modfile $B/sim.go.mod -o $B/sim.test . )
+# the example program (C17) with its overlay-added test entry point
+cp $REPO/go.mod $B/repo.go.mod
+cp $REPO/go.sum $B/repo.go.sum
+( cd $REPO && $GO test -c -tags verif -overlay $B/overlay/overlay.json -modfile $B/repo.go.mod -o $B/simulation.test ./internal/simulation )
